@@ -192,9 +192,11 @@ pub extern "C" fn ct_region(target: u32, secret: *const u8, out: *mut u8, prep: 
         #[cfg(feature = "full")]
         17 => o[0] = (black_box(&p.tag_secret) == black_box(&p.tag_public)) as u8,
         19 | 20 => {
-            // extended secret exactly as supplied (not clamped): every 256-bit scalar value, below and above the group order
+            // extended secret as supplied, not clamped: scalar values below and above the group order; only bit 255 is cleared, because
+            // the fixed-base multiplication documents its operand range as < 2^255
             let mut ext = [0u8; 64];
             ext[..32].copy_from_slice(s);
+            ext[31] &= 0x7f;
             ext[32..].copy_from_slice(&PUBLIC_TAG[..32]);
             if target == 19 {
                 *o = cryptoxide::ed25519::signature_extended(&p.msg[..100], &ext);
